@@ -110,8 +110,17 @@ class _FakeFile:
     def __exit__(self, *a):
         return False
 
-    def read(self):
-        return self.fs.read(self.p, self.encoding, binary="b" in self.mode)
+    def read(self, size=-1):
+        if getattr(self, "_buf", None) is None:
+            self._buf = self.fs.read(self.p, self.encoding, binary="b" in self.mode)
+            self._pos = 0
+        if size is None or size < 0:
+            out = self._buf[self._pos:]
+            self._pos = len(self._buf)
+        else:
+            out = self._buf[self._pos:self._pos + size]
+            self._pos += len(out)
+        return out
 
     def write(self, s):
         self.fs.write(self.p, s)
